@@ -248,6 +248,19 @@ pub fn run(ctx: &Ctx) -> i32 {
         for b in 0..=255u8 {
             w.check(2, || hdesc(&[a, b]), |st| check(&[a, b], st));
         }
+        // the byte at several positions of longer inputs (block-wise conversion paths)
+        for len in [15usize, 16, 17, 31, 32, 33, 64] {
+            for pos in [0usize, 7, 15, 16, len - 1] {
+                if pos >= len {
+                    continue;
+                }
+                for fill in [b'a', 0xE9u8] {
+                    let mut v = vec![fill; len];
+                    v[pos] = a;
+                    w.check(len as u64, || hdesc(&v), |st| check(&v, st));
+                }
+            }
+        }
     });
     let _ = gen::SIGMA10;
     let cov = json!({
@@ -255,7 +268,7 @@ pub fn run(ctx: &Ctx) -> i32 {
         "distinct_nontrivial": ctx.counter("nontrivial"),
         "rule": format!("every Unicode scalar value (1,112,064) as a one-character string through encode_str -> data_codewords -> decode_str, and through utf8_to_latin1; all strings over a 12-character class alphabet \
 (ASCII letters/digit, RS, EOT, e-acute, U+0080, euro, emoji, ~, NBSP, DEL) of length <= {} and over 24 characters of length <= {}, each (up to length 3) also inside the macro 05/06 envelope (length <= 3); every scalar value (quick tier: the whole BMP plus, in the astral planes, the first and last 64 scalars of every 4096-block and every scalar whose low six bits are 0, 0x1F or 0x3F; thorough tier: all of them) isolated between two runs of upper-case letters, of lower-case letters and of digits; long strings of seven non-ASCII units with payload lengths 250m-3..250m+3 bytes (m = 1..6), bare and after \"A\" / \"12\"; a run of 249..251 Latin-1 characters (124..126 two-byte characters on the UTF-8 path) followed by an EDIFACT-favouring middle part of every length 0..40 and six suffixes; a length sweep (runs of 0..130 characters of five classes followed by one of 12 final characters, plain and inside the macro 05 envelope); all strings of length 2..3 over the Latin-1 boundary characters; \
-latin1_to_utf8 on all 256 bytes and 65,536 pairs against ISO 8859-1 by rule, utf8_to_latin1 as its inverse. Oracle: round trip; printable Latin-1 => no ECI and Latin-1 bytes (reference decoder R5); otherwise exactly one UTF-8 designator (241 27) first (after a macro codeword) and UTF-8 payload. \
+latin1_to_utf8 on all 256 bytes, 65,536 pairs and every byte at five positions of inputs of 15..64 bytes against ISO 8859-1 by rule, utf8_to_latin1 as its inverse. Oracle: round trip; printable Latin-1 => no ECI and Latin-1 bytes (reference decoder R5); otherwise exactly one UTF-8 designator (241 27) first (after a macro codeword) and UTF-8 payload. \
 All cases distinct; non-trivial = UTF-8/ECI path taken or helper defined.", ctx.tier.pick(5, 6), ctx.tier.pick(3, 4)),
         "exhaustive": true,
         "latin1_without_eci": ctx.counter("latin1_without_eci"),
